@@ -82,8 +82,22 @@ def run_check(prop: str, tier: str, seed: int, replay_path: str = "") -> int:
     # 2. build the driver and the property's theorem modules against the regenerated code
     modules = list(mod.THEOREMS.keys())
     ok_drv, out_drv = C.lake_build(["skdriver"])
-    if not ok_drv:
-        broken.append({"kind": "build", "target": "skdriver (generated code does not compile)", "log": excerpt(out_drv)})
+    my_regions = list(getattr(mod, "GEN_REGIONS", []))
+    drv_exe = None
+    if ok_drv:
+        C.remember_good_driver()
+    else:
+        # The driver links EVERY generated region. If it no longer builds because of a region this property does not depend on (say dsp.py was
+        # rewritten and the property is about the schedulers), that is not a broken obligation of THIS property: the last driver that did build is
+        # used instead, provided the generated files of this property's own regions (and of the kernel/attribute regions every analysis-level
+        # correspondence runs through) are byte-identical to the ones that driver was built from.
+        drv_exe, why = C.good_driver_for(sorted(set(my_regions) | set(getattr(mod, "DRIVER_REGIONS", C.CORE_DRIVER_REGIONS))))
+        if drv_exe is None:
+            broken.append({"kind": "build", "target": "skdriver (generated code does not compile)", "log": excerpt(out_drv), "fallback": why})
+        else:
+            cov["driver_fallback"] = ("current generated code of an unrelated region does not compile; using the last good driver, whose generated "
+                                      "sources for this property's regions are identical to the current ones")
+            ok_drv = True
     ok_props, out_props = C.lake_build(modules) if modules else (True, "")
     if not ok_props:
         broken.append({"kind": "build", "target": modules, "log": excerpt(out_props)})
@@ -118,7 +132,7 @@ def run_check(prop: str, tier: str, seed: int, replay_path: str = "") -> int:
     # 4./5. correspondence and oracle
     drv = None
     try:
-        drv = C.Driver() if ok_drv else None
+        drv = C.Driver(drv_exe) if ok_drv else None
     except Exception as ex:
         broken.append({"kind": "driver", "error": repr(ex)})
     budget = float(os.environ.get("VERIF_BUDGET_S", "1500" if tier == "thorough" else "240"))
